@@ -116,6 +116,11 @@ def cases(seed, tier):
             kinds[0] = rng.choice(['terrapin_marked', 'cbc_etm', 'rsa1024', 'rsa2048', 'cert_small_ca', 'gex1024', 'gex2048', 'gex2048_openssh', 'old'])
             kinds[1] = rng.choice(['clean', 'rsa4096', 'gex4096', 'terrapin_noted'])
         targets = [make_target(rng, kd, j) for j, kd in enumerate(kinds)]
+        r2 = gen.case_rng(seed, ID, i, 'same-host')
+        if r2.random() < 0.12 and targets[0].get('kind') == 'server' and targets[1].get('kind') == 'server':
+            # two services of one host: the same name and address, two ports
+            targets[1]['host'], targets[1]['ip'] = targets[0]['host'], targets[0]['ip']
+            targets[1]['port'] = r2.choice([p_ for p_ in (22, 2222, 2022, 8022) if p_ != targets[0]['port']])
         mode = rng.choice(['text', 'text', 'json', 'policy', 'policy_json'])
         opts = {'text': rng.choice([['-n'], ['-n', '-b'], ['-n', '-v'], []]), 'json': rng.choice([['-j'], ['-jj']]), 'policy': ['-n', '-P', '{DIR}/policy.txt'],
                 'policy_json': ['-j', '-P', '{DIR}/policy.txt']}[mode]
